@@ -487,6 +487,7 @@ def _classify(repo, col, R="R-C19-classify"):
 def _pair(repo, col):
     R = "R-C19-pair"
     pair_delete(repo, col, R)
+    delete_scope(repo, col, R)
     _pair_rest(repo, col, R)
     from . import c08
     c08._pairing(repo, col, R)
@@ -508,6 +509,87 @@ def pair_delete(repo, col, R):
               f"values and row indices that remain after a partial deletion are selected differently ({masks}): e.g. a sorted set "
               f"difference for the indices but a positional mask for the values re-pairs every remaining input with another compartment",
               node=subs[0].node if subs else fi.node)
+
+
+def delete_scope(repo, col, R):
+    """view.delete_clamps(k) / view.delete_stimuli(): the inputs that REMAIN in the module are those whose row is NOT in view (by the kind
+    of the key: edges for synaptic keys, compartments otherwise); a key disappears only when nothing of it remains; without an argument
+    all clamps are deleted but never the stimuli (`i`), with an argument only that key."""
+    fi = repo.method("Module", "delete_clamps")
+    ex = idx.expander(repo, fi)
+    subs = [s_ for s_ in ex.stores if s_.kind == "sub" and _reg_name(s_.base) in ("externals", "external_inds") and s_.value.op == "sub"]
+    if not subs:
+        col.unk(R, fi, "delete_clamps keeps the inputs that are NOT in view", "filtered store not found", node=fi.node)
+        return
+    m = subs[0].value.args[1]
+    neg = False
+    t = m
+    while (t.op == "unary" and t.name in ("Invert", "Not")) or (t.op in ("call", "mcall") and t.name == "logical_not"):
+        neg = not neg
+        t = [a_ for a_ in t.args if a_.op != "free"][0]
+    isin = t if (t.op == "mcall" and t.name == "isin") else None
+    if isin is None:
+        col.unk(R, fi, "delete_clamps keeps the inputs that are NOT in view", f"keep mask {m.short(80)}", node=subs[0].node)
+    else:
+        a = [x for x in isin.args if x.op != "free"]
+        of_base = T.find(a[0], lambda x: x.op == "attr" and x.name == "external_inds" and x.args[0].op == "attr" and x.args[0].name == "base") is not None
+        sel = a[1]
+        by_kind = sel.op == "ifexp" and T.find(sel.args[0], lambda y: y.op == "mcall" and y.name == "_edge_state_names") is not None and \
+            not (sel.args[0].op == "not" or (sel.args[0].op == "cmp" and sel.args[0].name == "not in")) and \
+            {x.name for x in T.find_all(sel.args[1], lambda y: y.op == "attr" and y.name.endswith("_in_view"))} == {"_edges_in_view"} and \
+            {x.name for x in T.find_all(sel.args[2], lambda y: y.op == "attr" and y.name.endswith("_in_view"))} == {"_nodes_in_view"}
+        col.check(neg and of_base, R, fi, "delete_clamps keeps the inputs that are NOT in view", "~np.isin(base.external_inds[k], rows in view)",
+                  f"the rows kept are `{m.short(90)}`: " + ("the inputs IN view are kept and all others are deleted" if not neg else "not the base's index list"), node=subs[0].node)
+        col.check(by_kind, R, fi, "delete_clamps matches synaptic keys with the edges in view and all other keys with the compartments in view", "",
+                  f"membership is tested against `{sel.short(90)}`", node=subs[0].node)
+    pops = [s_ for s_ in ex.stores if s_.kind == "mcall" and s_.key.name == "pop"]
+    if pops:
+        g = [x for x in pops[0].guards if x.op != "loop"]
+        def nothing_left(c):
+            n_ = False
+            while c.op == "not" or (c.op == "unary" and c.name == "Not"):
+                n_, c = not n_, c.args[0]
+            if c.op in ("mcall", "call") and c.name in ("all", "any"):
+                inner = [a_ for a_ in c.args if a_.op != "free"][0]
+                inv = False
+                while (inner.op == "unary" and inner.name in ("Invert", "Not")) or (inner.op in ("call", "mcall") and inner.name == "logical_not"):
+                    inv, inner = not inv, [a_ for a_ in inner.args if a_.op != "free"][0]
+                if inner.key() != t.key():
+                    return None
+                is_keep = (inv == neg)          # the reduced expression is the keep mask itself (same parity of negations) or its complement
+                # all(~keep) / not any(keep)  <=>  nothing is kept
+                return (c.name == "all" and not is_keep and not n_) or (c.name == "any" and is_keep and n_)
+            return None
+        v = [nothing_left(c) for c in g]
+        v = [x for x in v if x is not None]
+        col.add(R, fi, "delete_clamps removes a key entirely only when none of its inputs remains", "DISCHARGED" if v and all(v) else ("VIOLATED" if v else "UNDECIDED"),
+                "if np.all(~keep)" if v and all(v) else f"the key is popped under `{g[-1].short(70) if g else 'no condition'}`: inputs outside the view are deleted with it",
+                node=pops[0].node)
+    # which keys
+    loop = next((n_ for n_ in ast.walk(fi.node) if isinstance(n_, ast.For)), None)
+    it = ex.term(loop.iter) if loop is not None else None
+    pname = fi.params[1] if len(fi.params) > 1 else None
+    if it is None or pname is None:
+        col.unk(R, fi, "delete_clamps() deletes all clamps but no stimulus; delete_clamps(k) only k", "loop over the keys not found", node=fi.node)
+    else:
+        from .idx import guard_truth, specialise
+        one = it
+        cond = T.find(it, lambda x: x.op == "ifexp" and x.args[0].op == "cmp" and x.args[0].name in ("is", "is not", "==", "!=") and
+                      any(a_.op == "param" and a_.name == pname for a_ in x.args[0].args) and any(a_.op == "const" and a_.name is None for a_ in x.args[0].args))
+        if cond is not None and cond is it:
+            one = it.args[2] if it.args[0].name in ("is", "==") else it.args[1]      # the branch taken when a key IS given
+        only_k = one.op == "list" and len(one.args) == 1 and one.args[0].op == "param" and one.args[0].name == pname
+        # the None case: every key of the view's externals except "i"
+        rm_i = any(isinstance(n_, ast.Call) and isinstance(n_.func, ast.Attribute) and n_.func.attr == "remove" and n_.args and isinstance(n_.args[0], ast.Constant)
+                   and n_.args[0].value == "i" for n_ in ast.walk(fi.node)) or \
+            T.find(it, lambda x: x.op == "cmp" and x.name == "!=" and any(a_.op == "const" and a_.name == "i" for a_ in x.args)) is not None
+        is_none = T.find(it, lambda x: x.op == "ifexp" and T.find(x.args[0], lambda y: y.op == "cmp" and y.name in ("is", "is not", "==", "!=") and
+                                                                  any(a_.op == "param" and a_.name == pname for a_ in y.args)) is not None) is not None
+        col.check(is_none and only_k, R, fi, "delete_clamps(k) deletes only the inputs of key k", "[state_name]",
+                  f"the keys worked on are `{it.short(90)}`: the argument does not restrict them (delete_stimuli() = delete_clamps('i') would delete the clamps and "
+                  f"keep the stimuli)", node=loop)
+        col.check(rm_i, R, fi, "delete_clamps() without a key deletes all clamps but no stimulus", "'i' is taken out of the keys",
+                  "the stimuli (`i`) are deleted together with the clamps", node=loop)
 
 
 def record_dedup(repo, col, R):
